@@ -10,33 +10,38 @@ Proof.
   rewrite N2Z.inj_mod. reflexivity.
 Qed.
 
+Lemma mod_N (x : N) : (Z.of_N x) mod 256 = Z.of_N (N.land x 255).
+Proof. change 255%N with (N.ones 8). rewrite N.land_ones. rewrite N2Z.inj_mod. reflexivity. Qed.
+
 Definition st_of (p : N * N) : gv * gv := (gint (Z.of_N (fst p)), gint (Z.of_N (snd p))).
 
 Lemma calc_checksum_agree : mem_s "py_calc_checksum" translated = true ->
   forall bs, py_calc_checksum (gbytes bs) = Ok (gbytes (fletcher bs)).
 Proof.
   intros Hin bs. first [untranslated Hin | clear Hin].
-  unfold py_calc_checksum. cbn [g_iter gbytes bind].
-  match goal with |- context [g_fold ?F _ _] => set (FF := F) end.
-  assert (H : forall l p, g_fold FF (map (fun c => gint (Z.of_N c)) l) (st_of p) = Ok (st_of (fold_left fl_step l p))).
-  { induction l as [|c l IH]; intros [a b]; [reflexivity|].
-    cbn [map g_fold fold_left]. unfold FF at 1. cbv beta. unfold st_of at 1. cbn [fst snd g_add g_band gint bind].
-    rewrite <- ?N2Z.inj_add, ?land_N, <- ?N2Z.inj_add, ?land_N.
-    rewrite <- (IH (fl_step (a, b) c)). reflexivity. }
-  change (gint 0, gint 0) with (st_of (0%N, 0%N)). rewrite H. cbn [bind].
-  pose proof (fletcher_wfb bs) as Hw. unfold fletcher, fletcher_pair in *.
-  destruct (fold_left fl_step bs (0%N, 0%N)) as [a b]. unfold st_of. cbn [fst snd].
-  inversion Hw as [|x l Ha Hl]; subst. inversion Hl as [|y l' Hb _]; subst.
-  unfold g_bytes_of, gint. cbn [ints_to_bytes].
-  destruct ((Z.of_N a <? 0) || (255 <? Z.of_N a)) eqn:E1; [lia|].
-  destruct ((Z.of_N b <? 0) || (255 <? Z.of_N b)) eqn:E2; [lia|].
-  cbn [bind]. rewrite !N2Z.id. reflexivity.
+  all: unfold py_calc_checksum. cbn [g_iter gbytes bind].
+  all: match goal with |- context [g_fold ?F _ _] => set (FF := F) end.
+  all: assert (H : forall l p, g_fold FF (map (fun c => gint (Z.of_N c)) l) (st_of p) = Ok (st_of (fold_left fl_step l p))) by
+    (induction l as [|c l IH]; intros [a b]; [reflexivity|];
+     cbn [map g_fold fold_left]; unfold FF at 1; cbv beta; unfold st_of at 1;
+     repeat progress (cbn [fst snd g_add g_band g_mod gint bind Z.eqb]; rewrite <- ?N2Z.inj_add, ?land_N, ?mod_N);
+     rewrite <- (IH (fl_step (a, b) c)); reflexivity).
+  all: change (gint 0, gint 0) with (st_of (0%N, 0%N)). rewrite H. cbn [bind].
+  all: pose proof (fletcher_wfb bs) as Hw. unfold fletcher, fletcher_pair in *.
+  all: destruct (fold_left fl_step bs (0%N, 0%N)) as [a b]. unfold st_of. cbn [fst snd].
+  all: inversion Hw as [|x l Ha Hl]; subst. inversion Hl as [|y l' Hb _]; subst.
+  all: unfold g_bytes_of, gint. cbn [ints_to_bytes].
+  all: destruct ((Z.of_N a <? 0) || (255 <? Z.of_N a)) eqn:E1; [lia|].
+  all: destruct ((Z.of_N b <? 0) || (255 <? Z.of_N b)) eqn:E2; [lia|].
+  all: cbn [bind]. rewrite !N2Z.id. reflexivity.
 Qed.
 
 Lemma isvalid_checksum_agree : mem_s "py_isvalid_checksum" translated = true ->
   forall m, py_isvalid_checksum (gbytes m) = Ok (gbool (isvalid_checksum m)).
 Proof.
   intros Hin m. first [untranslated Hin | clear Hin].
-  unfold py_isvalid_checksum, isvalid_checksum.
-  cbn [g_len g_sub g_slice g_calc_checksum gbytes gint bind g_eq pv_eq]. reflexivity.
+  all: unfold py_isvalid_checksum, isvalid_checksum.
+  all: cbn [g_len g_sub g_slice g_calc_checksum gbytes gint gnone bind g_eq pv_eq].
+  all: change (-2) with (- (2)); rewrite ?pyslice_neg_hi, ?pyslice_from_neg by lia.
+  all: first [reflexivity | rewrite beq_sym; reflexivity].
 Qed.
